@@ -32,7 +32,8 @@ RULE = (
     "A finishes, B finishes) and seeded multi-segment schedules over three threads; yield points: every "
     "line of jaxtyping/_storage.py and of _check_dims / _check_shape (quick), every line of every jaxtyping source "
     "file (thorough); checks outside every context included (they must start from empty bindings); a sample of the "
-    "schedules again with every worker running inside a copy of one contextvars context; "
+    "schedules again with every worker running inside a copy of one contextvars context, and with workers started through "
+    "_thread.start_new_thread; "
     "non-trivial = the preemption lands while the preempted thread holds a context, a '?' label or "
     "flatten mode; distinct by (workload set, schedule)"
 )
@@ -128,7 +129,7 @@ def functions_for(tier):
     return {os.path.join(REPO, "jaxtyping", "_array_types.py"): {"_check_dims", "_check_shape"}}
 
 
-_MODE = {"functions": {}, "contexts": False}
+_MODE = {"functions": {}, "contexts": False, "raw": False}
 
 
 def run_schedule(files, progs, schedule):
@@ -139,7 +140,7 @@ def run_schedule(files, progs, schedule):
 
         impl_prog.run_program([{"op": "ctx", "body": [{"op": "check", "l": arr_type("z"), "x": arr_val([1])}], "exit": "ret"}], "typeguard", None)
         ctxs = [contextvars.copy_context() for _ in progs]
-    sch = Scheduler(files, [runner(p) for p in progs], schedule, functions=_MODE["functions"], contexts=ctxs)
+    sch = Scheduler(files, [runner(p) for p in progs], schedule, functions=_MODE["functions"], contexts=ctxs, raw_threads=_MODE["raw"])
     res = sch.run()
     if sch.failed:
         raise InfraError("scheduler: " + sch.failed)
@@ -240,6 +241,12 @@ def run(tier, seed, out, drv, facts):
             explore(out, files, progs, solo, rng.sample(schedules, min(len(schedules), 300 if thorough else 60)), tag + "@ctx", npoints)
         finally:
             _MODE["contexts"] = False
+        # (5) ... and with workers started through `_thread.start_new_thread` (alive but unknown to `threading.enumerate()`)
+        _MODE["raw"] = True
+        try:
+            explore(out, files, progs, solo, rng.sample(schedules, min(len(schedules), 300 if thorough else 60)), tag + "@raw", npoints)
+        finally:
+            _MODE["raw"] = False
 
 
 def replay(rep, out, drv, facts):
